@@ -72,3 +72,70 @@ Definition chk06 (c : setk * option elem * pyval * result elem * result elem * l
          | Ok m => if negb (elem_eqb e m) then 3 else chk_reads e rs
          end
   end.
+
+(* ---- arguments of set_value_and_type / typed reads / repeated runs *)
+Definition optstr_eqb' := optstr_eqb.
+Definition tres_eqb (a b : result (pyval * option str)) : bool :=
+  match a, b with
+  | Ok (x, t), Ok (y, u) => pyval_eqb x y && optstr_eqb t u
+  | Err, Err => true
+  | _, _ => false
+  end.
+Definition tread := (elem * result (pyval * option str))%type.      (* element read from, (value, reported type) *)
+Definition expected_type (vt : option str) (v : pyval) : option str :=
+  match v with VNone => None | _ => match vt with Some t => Some t | None => default_type v end end.
+(* the type asked for fits the value: numbers as float / percentage / currency, everything else only as its own type *)
+Definition type_fits (vt : option str) (v : pyval) : bool :=
+  match vt with
+  | None => true
+  | Some t => match v with
+              | VNone => true
+              | VInt _ | VFloat _ | VDec _ => str_eqb t t_float || str_eqb t t_percentage || str_eqb t t_currency
+              | _ => optstr_eqb (Some t) (default_type v)
+              end
+  end.
+Fixpoint elems_eqb (a b : list elem) : bool :=
+  match a, b with [] , [] => true | x :: a', y :: b' => elem_eqb x y && elems_eqb a' b' | _, _ => false end.
+Fixpoint others_unchanged (i j : nat) (before after : list elem) : bool :=
+  (* position j onward: every cell but the i-th is what it was (missing cells count as empty) *)
+  match after with
+  | [] => match before with [] => true | _ => false end
+  | a :: after' =>
+    let b := match before with x :: _ => x | [] => empty_elem end in
+    (Nat.eqb i j || elem_eqb a b) && others_unchanged i (S j) (match before with _ :: r => r | [] => [] end) after'
+  end.
+
+Inductive c06case :=
+| K1 (c : setk * option elem * pyval * result elem * result elem * list read)
+| K2 (vt cur fo : option str) (v : pyval) (w : result elem) (rs : list tread)
+| K3 (i : nat) (before after : list elem) (v : pyval) (r : result pyval).
+
+(* additional codes: 9 another logical cell than the addressed one changed (or the width is wrong) *)
+Definition chk06all (c : c06case) : nat :=
+  match c with
+  | K1 c' => chk06 c'
+  | K2 vt cur fo v w rs =>
+      match w with
+      | Err => match set_et_full vt cur fo v with Err => 0 | Ok _ => 3 end
+      | Ok e =>
+        let dom := in_domain v && type_fits vt v in
+        if dom && negb (forallb (fun r : tread => match snd r with
+                                                   | Ok (x, t) => same_value v x && optstr_eqb t (expected_type vt v)
+                                                   | Err => false end) rs) then 1
+        else if dom && negb (match a_value e with Some s => decimal_lexical s | None => true end) then 2
+        else match set_et_full vt cur fo v with
+             | Err => 3
+             | Ok m => if negb (elem_eqb e m) then 3
+                       else if forallb (fun r : tread => elem_eqb (fst r) e) rs
+                       then (if forallb (fun r : tread => tres_eqb (snd r) (get_et_typed (fst r))) rs then 0 else 4)
+                       else 5
+             end
+      end
+  | K3 i before after v r =>
+      if negb (Nat.eqb (length after) (Nat.max (S i) (length before)) && others_unchanged i 0 before after) then 9
+      else if in_domain v && negb (match r with Ok x => same_value v x | Err => false end) then 1
+      else match model_set SetET v with
+           | Ok m => if elems_eqb after (grid_set i m before) then 0 else 3
+           | Err => 3
+           end
+  end.
